@@ -52,6 +52,9 @@ META = {
     "C14": {"technique": "model-based property testing over histories of runs of one prepared workflow (sequential and overlapping), reference per run",
             "level_text": "Generated histories of sequential and overlapping runs (incl. cancelled and failing ones, a twin, re-preparation) of one prepared workflow; each run is judged against the reference for an isolated run with its input, its log slice against the dataflow oracle, and the prepared graph must stay unchanged.",
             "level_note": TB + "; overlap is real concurrency inside one worker process, not a controlled interleaving"},
+    "C09": {"technique": "systematic delay injection at build-time schedule points (single-site sweep) + random multi-site delay plans, metamorphic/reference oracle",
+            "level_text": "Schedule exploration by delay injection: an exhaustive (thorough) or sampled (quick) single-site sweep over all source-level synchronisation points on canonical single-result workflows, plus random multi-site plans on generated programs; the oracle is the reference result, which must not change.",
+            "level_note": TB + "; the instrumenter (tools/instr, go/ast) rewrites copies of three engine files that are overlaid at build time; /repo is untouched"},
 }
 
 NOT_APPLICABLE = []
